@@ -32,17 +32,55 @@ fn ring_case(t: &mut Tape, obs: &mut Obs, cap_slots: i64) -> CaseResult {
     let cfg = gen_ring_cfg(t, &GenOpts { min_n: 2, max_n: 5, max_hsa_extra: 40, late_joiners: true });
     let mut sim = Sim::new(cfg.clone(), 0);
     let apps = attach_apps(&mut sim, t);
-    let end = horizon_us(&cfg, cap_slots);
+    let mut end = horizon_us(&cfg, cap_slots);
+    // a station may leave the bus while it is idle and join again later (joining an active bus)
+    let mut online: Vec<Vec<i64>> = cfg.stations.iter().map(|s| vec![s.online_at_us * 1000]).collect();
+    let slot = cfg.slot_us();
+    let mut leave: Option<(usize, i64, i64)> = None; // station, earliest leave time, absence
+    if cfg.stations.len() >= 2 && t.chance(1, 3) {
+        let k = t.below(cfg.stations.len() as u64) as usize;
+        let latest = cfg.stations.iter().map(|s| s.online_at_us).max().unwrap_or(0);
+        let at = latest + slot * (200 + t.below(2000) as i64);
+        let absence = match t.below(3) {
+            0 => slot * (1 + t.below(10) as i64),
+            1 => slot * (6 + 2 * i64::from(cfg.stations[k].addr)) + slot * t.below(40) as i64,
+            _ => slot * (300 + t.below(3000) as i64),
+        };
+        leave = Some((k, at, absence));
+        end = end.max(at + absence + t_conv_us(&cfg).min(cap_slots * slot));
+        obs.label("station-leaves-and-rejoins");
+    }
+    let mut rejoin_at: Option<(usize, i64)> = None;
     while let Some(tn) = sim.next_time() {
         if tn > end {
             break;
         }
+        if let Some((k, at)) = rejoin_at {
+            if tn >= at {
+                sim.restart_station(k, at);
+                online[k].push(at * 1000);
+                rejoin_at = None;
+                continue;
+            }
+        }
         sim.step();
+        if let Some((k, at, absence)) = leave {
+            if sim.now >= at && !sim.nodes[k].stopped {
+                // leave only while idle: not holding the token, nothing of its own on the wire
+                let dbg = format!("{:?}", sim.nodes[k].fdl);
+                let idle = dbg.contains(", state: ActiveIdle") || dbg.contains(", state: ListenToken");
+                let quiet = sim.bus.0.borrow().trace.last().map(|r| r.sender != k || r.end_ns <= sim.now * 1000).unwrap_or(true);
+                if idle && quiet && !dbg.contains("status_request: Some") {
+                    sim.stop_station(k);
+                    rejoin_at = Some((k, sim.now + absence));
+                    leave = None;
+                }
+            }
+        }
     }
-    let online: Vec<i64> = cfg.stations.iter().map(|s| s.online_at_us * 1000).collect();
     let addrs: Vec<u8> = cfg.stations.iter().map(|s| s.addr).collect();
     let b = sim.bus.0.borrow();
-    let stats = c01_trace_oracle(&cfg, &b.trace, cfg.stations.len(), &|i| addrs.get(i).copied(), &online)?;
+    let stats = c01_trace_oracle_ev(&cfg, &b.trace, cfg.stations.len(), &|i| addrs.get(i).copied(), &online)?;
     // labels
     let sorted = cfg.sorted_addrs();
     if sorted.contains(&(cfg.hsa - 1)) {
@@ -95,7 +133,7 @@ pub fn property() -> Property {
             ],
         },
         hang_is_violation: false,
-        hang_limit_s: 0,
+        hang_limit_s: 900,
         probes: vec![],
     }
 }
